@@ -115,6 +115,14 @@ fn run_main() {
                 std::fs::write(p, serde_json::to_string_pretty(&serde_json::json!({"stats": rec.stats_json(), "samples": rec.samples})).unwrap()).unwrap();
             }
         }
+        "wider" => {
+            let mut rec = rec::Recorder::to_file(&out);
+            wider::run(seed, get("worlds", "2").parse().unwrap(), &mut rec);
+            eprintln!("{}", serde_json::to_string(&rec.stats_json()).unwrap());
+            if let Some(p) = m.get("stats") {
+                std::fs::write(p, serde_json::to_string_pretty(&serde_json::json!({"stats": rec.stats_json(), "samples": rec.samples})).unwrap()).unwrap();
+            }
+        }
         "mints" => {
             let mut rec = rec::Recorder::to_file(&out);
             mints::run(seed, &get("cases", ""), get("sample", "300").parse().unwrap(), &mut rec);
